@@ -1104,3 +1104,12 @@ LEVEL_NOTE = ("Process histories: the model run_history is stateless by construc
               "not axioms. The remaining defect of the current code is proved as *_refuted witnesses: + - and int * lose a microsecond from 2^31 s. Division by a plain timedelta "
               "(formerly AttributeError, finding div-by-plain-timedelta) is repaired: div_mod_by_timedelta_spec / div_by_timedelta_agrees hold at full strength and a regression is a VIOLATION.")
 TECHNIQUE = "translator (py2gallina + per-branch constructor-argument extraction) + Coq proof (lia/nia over floor division, vm_compute witnesses) + differential correspondence + stdlib timedelta/Fraction oracle"
+
+
+# C09's float premise float_split_exact_on_D9 is a theorem (Proofs/FloatRoundTripC09.v); the statements that carried it are restated without premise
+TRUSTED = list(TRUSTED) + [
+    "Flocq (installed library) correctness theorems for binary64 operations, bridged to Coq's SpecFloat in coq/Proofs/FloatRoundTripBase.v",
+    "standard-library axioms reported by Print Assumptions for the unconditional float theorems only (to_microseconds_constructed, remainder_constructible, chain_mod_then_div): ClassicalDedekindReals.sig_not_dec, "
+    "ClassicalDedekindReals.sig_forall_dec, FunctionalExtensionality.functional_extensionality_dep, Classical_Prop.classic (the real-number axioms Flocq and Reals rest on); "
+    "every other theorem, the *_partial forms included, is closed under the global context",
+]
